@@ -188,6 +188,13 @@ def oracle_forest(case, ctx):
         labs = {"int": [0, 1, 2, 3], "int_gap": [-3, 7, 12, 40], "str": ["b", "a", "zz", "c"]}[case["label_kind"]][:k]
         y = np.array([labs[i % k] for i in range(n)])
         est = panelpool.build_classifier({"kind": "tsf", "n_estimators": case["n_estimators"], "random_state": case["rs"], "n_jobs": case["n_jobs"]})
+        if case.get("refit_other_params"):
+            # the forest was trained before with more trees, on a longer panel with other labels
+            est.set_params(n_estimators=case["n_estimators"] + 2)
+            X0 = panelpool.panel_values(case["seed"] + 9, n + 1, 1, t + 5)
+            sut(est.fit, panelpool.to_nested(X0), np.array(["u", "v", "w"])[np.arange(n + 1) % 3])
+            est.set_params(n_estimators=case["n_estimators"])
+            ctx.label("refitted_with_other_parameters")
         r = sut(est.fit, panelpool.to_nested(X3), y)
         if isinstance(r, Raised):
             return [unexpected(r, "tsf.fit")]
@@ -208,6 +215,12 @@ def oracle_forest(case, ctx):
     else:
         y = np.round(np.linspace(-2, 3, n) + np.sin(np.arange(n)), 4)
         est = panelpool.build_classifier({"kind": "tsfr", "n_estimators": case["n_estimators"], "random_state": case["rs"], "n_jobs": case["n_jobs"]})
+        if case.get("refit_other_params"):
+            est.set_params(n_estimators=case["n_estimators"] + 2)
+            X0 = panelpool.panel_values(case["seed"] + 9, n + 1, 1, t + 5)
+            sut(est.fit, panelpool.to_nested(X0), np.linspace(5.0, 9.0, n + 1))
+            est.set_params(n_estimators=case["n_estimators"])
+            ctx.label("refitted_with_other_parameters")
         r = sut(est.fit, panelpool.to_nested(X3), y)
         if isinstance(r, Raised):
             return [unexpected(r, "tsfr.fit")]
@@ -293,7 +306,7 @@ def forest_cases(draw):
         "n_classes": draw(st.integers(2, 3)), "label_kind": draw(st.sampled_from(["int", "int_gap", "str"])),
         "n_estimators": draw(st.integers(1, 6)), "rs": draw(st.integers(0, 1000)), "seed": draw(st.integers(0, 10 ** 6)),
         "n_jobs": draw(st.sampled_from([1, 1, 2])),
-        "level": draw(st.sampled_from([0.0, 0.0, 1e3, 1e6, 1e7])),
+        "level": draw(st.sampled_from([0.0, 0.0, 1e3, 1e6, 1e7])), "refit_other_params": draw(st.integers(0, 2)) == 0,
     }
 
 
